@@ -37,6 +37,9 @@ type Walker struct {
 	// true stops the walk.
 	OnInstr func(ins ssa.Instruction, w *Walker) bool
 
+	// InitCells gives the content of memory cells (captured variables) at the start of the walk.
+	InitCells map[ssa.Value]WVal
+
 	// Target, when set, resolves branches whose condition is unknown: the walk
 	// takes the only successor from which Target's block is reachable.
 	Target ssa.Instruction
@@ -237,6 +240,9 @@ func (w *Walker) exec(ins ssa.Instruction, prev *ssa.BasicBlock) {
 func (w *Walker) Run() {
 	w.vals = map[ssa.Value]WVal{}
 	w.cells = map[ssa.Value]WVal{}
+	for k, v := range w.InitCells {
+		w.cells[k] = v
+	}
 	if len(w.Fn.Blocks) == 0 {
 		w.Err = "function has no body"
 		return
